@@ -54,6 +54,15 @@ def pick_streams(tier):
     iv('2nd stream broken', bzgen.build([([Block(b'good')], 1)])[0] + b'BZh5' + bytes(20))
     return valid, invalid
 
+def _nthr(c):
+    """threads of a cell: main, reader, writer and W workers; the copy pipeline has no workers"""
+    if any(a in ('-cdf',) for a in c.args) and c.leg.startswith('copy'):
+        return 3
+    for a in c.args:
+        if a.startswith('-n') and a[2:].isdigit():
+            return int(a[2:]) + 3
+    return 99
+
 def run(tier):
     chk = common.Check('C09', LEVEL, tier, quick_deadline=170, thorough_deadline=1500)
     quick = tier == 'quick'
@@ -185,6 +194,7 @@ def run(tier):
                 if quick and gn == 'stock' and W == 3:
                     continue
                 ex.add('schedules', 'fast', ['-d', '-n%d' % W], data, orc, '%s W=%d %s' % (name, W, gn), {'setenv': envv})
+    ex.run_priorities(_nthr, cells=[c for c in ex.cells if _nthr(c) <= (5 if quick else 6)])
     done = 0
     for d in range(1, (2 if quick else 3) + 1):
         if not ex.run_pass(d):
